@@ -826,7 +826,30 @@ func resolveMathType(module *Module, fn *Function, expr ExprMath) (TypeResolutio
 		return TypeResolution{Value: ScalarType{Kind: ScalarFloat, Width: 4}}, nil
 
 	case MathOuter:
-		// Outer product returns matrix - complex, skip for now
+		// outerProduct(c, r) of a vecR and a vecC is a matrix with C columns of R rows.
+		if expr.Arg1 != nil {
+			if lhs, ok := resolveInner(module, argType).(VectorType); ok {
+				if rhsType, err := ResolveExpressionType(module, fn, *expr.Arg1); err == nil {
+					if rhs, ok := resolveInner(module, rhsType).(VectorType); ok {
+						return TypeResolution{Value: MatrixType{Columns: rhs.Size, Rows: lhs.Size, Scalar: lhs.Scalar}}, nil
+					}
+				}
+			}
+		}
+		return argType, nil
+
+	case MathTranspose:
+		// transpose(matCxR) is matRxC.
+		if mat, ok := resolveInner(module, argType).(MatrixType); ok {
+			return TypeResolution{Value: MatrixType{Columns: mat.Rows, Rows: mat.Columns, Scalar: mat.Scalar}}, nil
+		}
+		return argType, nil
+
+	case MathDeterminant:
+		// determinant(matNxN) is a scalar.
+		if mat, ok := resolveInner(module, argType).(MatrixType); ok {
+			return TypeResolution{Value: mat.Scalar}, nil
+		}
 		return argType, nil
 
 	case MathUnpack4xI8:
